@@ -32,7 +32,7 @@ func init() {
 		ID: "C03", Level: "model_checking",
 		Rule:   "AX: BFS over reference decoder states (dynamic table x limits), each state reached on a fresh real HPACK by its access sequence, every alphabet block (representation x name source x Huffman x value-length classes incl. length==first byte, 127/128/300, size updates) decoded via nextField(server mode) and Next(client mode) and compared with the RFC 7541 reference (fields, sensitivity, table); BX: all byte strings up to the bound as complete blocks at 3 table states + invalid-form catalogue. Non-trivial: block touches the dynamic table, or is rejected by the reference, or has >= 2 fields; distinct by (state, block bytes).",
 		Assume: []string{"ref/hpack.go is RFC 7541 (cross-checked against x/net's decoder on every generated block)", "size-update-only blocks are not generated (the decoder API cannot express 'no field')", "over-long but non-overflowing integer encodings are not generated (RFC 7541 5.1 lets an implementation reject them)"},
-		Run:    runC03, Replay: replayC03, QuickS: 45, ThoroughS: 600,
+		Run:    runC03, Replay: replayC03, QuickS: 120, ThoroughS: 600,
 	})
 }
 
